@@ -654,7 +654,7 @@ def _rows_for(rules, raw, want_keys=2):
 
 
 @functools.lru_cache(None)
-def universe(label, idx):
+def universe(label, idx, tails=None):
     """row universe for custom rule number idx of the rulebook of `label`; None if the rule path cannot be synthesised.
     {chain: [rows], top: [rows of the rule (<= 2 keys x 3 tails), then <= 2 plain sibling rows],
      rrows: the rows of the rule, child: [<= 2 child rows], logic: name}"""
@@ -681,7 +681,7 @@ def universe(label, idx):
         return None
     rrows = []
     for n, (row, _key) in enumerate(bare):
-        for tail in (TAILS if n == 0 else TAILS[1:2]):        # first key: every tail; second key: one tail
+        for tail in ((tails or TAILS) if n == 0 else (tails or TAILS)[1:2]):        # first key: every tail; second key: one tail
             r = (row + " " + tail).strip()
             if r not in rrows and _hits(rules, r, cr["raw"]) is not None:
                 rrows.append(r)
